@@ -45,6 +45,25 @@ Theorem C10_fua_reassembly : forall avc nri ty fs cs,
 Proof. exact depack_fua. Qed.
 Print Assumptions C10_fua_reassembly.
 
+(* IsPartitionHead is true exactly on the first payload of each unit: on a single NAL unit packet,
+   on a STAP-A, and on the FU-A fragment that carries the S bit - false on every later fragment *)
+From RTP Require Import Proofs.PartitionHead.
+
+Theorem C10_partition_head_fua : forall nri ty fs cs, nri = 0 \/ nri = 32 \/ nri = 64 \/ nri = 96 -> 1 <= ty <= 23 ->
+  fua_rel (Z.lor 28 nri) ty true fs cs ->
+  map (fun f => h264_is_partition_head (Some (own_bytes f))) fs = true :: repeat false (length fs - 1).
+Proof. exact h264_fua_heads. Qed.
+Print Assumptions C10_partition_head_fua.
+
+Theorem C10_partition_head_single : forall n, valid_nal n -> h264_is_partition_head (Some n) = true.
+Proof. exact h264_single_head. Qed.
+Print Assumptions C10_partition_head_single.
+
+Theorem C10_partition_head_stapa : forall b0 b1 t, Z.land b0 31 = 24 -> h264_is_partition_head (Some (b0 :: b1 :: t)) = true.
+Proof. exact h264_stapa_head. Qed.
+Print Assumptions C10_partition_head_stapa.
+
+
 Theorem C10_lossless : forall mtu avc, 3 <= mtu <= 65535 -> forall ns st,
   Forall valid_nal ns -> held_valid st ->
   exists fs, h264_nalus mtu st ns = Ok (fst (deliver_all st ns), fs) /\
